@@ -107,11 +107,16 @@ package mqtt
 //@ chaninv mqtt.Client.offlineSig(v): v != nil && len(v) == 0
 
 // nonNilIsAny mirrors errors.Is over a list of targets.
+// The walk is errors.Is's, depth first over a private stack; the error value's own slices are left alone.
 //@ func mqtt.nonNilIsAny -> ok
-//@ unverified
-//@ pure
+//@ modifies nothing
 //@ requires err != nil
-//@ ensures ok == exists(i, 0, len(matches), Is(err, matches[i]))
+//@ requires forall(i, 0, len(matches), matches[i] != nil && is_(matches[i], matches[i]))
+//@ loop 1: modifies elems(more)
+//@ loop 1: invariant more == nil || fresh(more)
+//@ loop[reveal=anyis] 1: invariant anyis(old(err), arr(matches), off(matches), len(matches)) == (anyis(err, arr(matches), off(matches), len(matches)) || exists(j, 0, len(more), anyis(more[j], arr(matches), off(matches), len(matches))))
+//@ loop 2: invariant forall(i, 0, rangeindex + 1, err != matches[i] && !(impl(err, "interface{Is(error) bool}") && e_ism(err, matches[i])))
+//@ ensures[C14,reveal=anyis] ok == exists(i, 0, len(matches), Is(err, matches[i]))
 
 // Signal channels: singleton holders.
 //@ func mqtt.(*Client).Online -> ch
